@@ -1,0 +1,144 @@
+//! Verification-only file-system seam (compiled only with `--features verif_hooks`).
+//!
+//! The two per-user files (learned selections and the user's auto-correct list) are
+//! read and written through `std::fs` directly. A deterministic simulator needs to
+//! own those accesses, so the modules that touch them import [`std_shim`] under the
+//! name `std` when this feature is on. The shim re-exports the whole standard
+//! library and replaces only `fs::{read, write, File, Metadata}` by versions that
+//! first ask a thread-local [`SimFs`]; when none is installed, or when it answers
+//! "not mine" (`None`), the call goes to the real `std::fs` unchanged.
+//!
+//! With the feature off this file is not compiled and nothing else changes.
+
+use std::cell::RefCell;
+use std::io;
+use std::path::Path;
+use std::rc::Rc;
+use std::time::SystemTime;
+
+/// A simulated file system for (a subset of) paths.
+///
+/// Every method may return `None` to decline a path, which falls through to the
+/// real file system.
+pub trait SimFs {
+    /// `std::fs::read`
+    fn read(&self, path: &Path) -> Option<io::Result<Vec<u8>>>;
+    /// `std::fs::write`
+    fn write(&self, path: &Path, data: &[u8]) -> Option<io::Result<()>>;
+    /// `std::fs::File::open`: the file's bytes and modification time as of the open.
+    fn open(&self, path: &Path) -> Option<io::Result<(Vec<u8>, SystemTime)>>;
+}
+
+thread_local! {
+    static SIM_FS: RefCell<Option<Rc<dyn SimFs>>> = RefCell::new(None);
+}
+
+/// Installs (or, with `None`, removes) the simulated file system of the calling
+/// thread and returns the one installed before.
+pub fn install(fs: Option<Rc<dyn SimFs>>) -> Option<Rc<dyn SimFs>> {
+    SIM_FS.with(|slot| slot.replace(fs))
+}
+
+fn current() -> Option<Rc<dyn SimFs>> {
+    SIM_FS.with(|slot| slot.borrow().clone())
+}
+
+/// Drop-in replacement for the `std` crate root.
+pub mod std_shim {
+    pub use ::std::*;
+
+    pub mod fs {
+        use super::super::current;
+        use ::std::io;
+        use ::std::path::Path;
+        use ::std::time::SystemTime;
+
+        pub fn read<P: AsRef<Path>>(path: P) -> io::Result<Vec<u8>> {
+            if let Some(fs) = current() {
+                if let Some(result) = fs.read(path.as_ref()) {
+                    return result;
+                }
+            }
+            ::std::fs::read(path)
+        }
+
+        pub fn write<P: AsRef<Path>, C: AsRef<[u8]>>(path: P, contents: C) -> io::Result<()> {
+            if let Some(fs) = current() {
+                if let Some(result) = fs.write(path.as_ref(), contents.as_ref()) {
+                    return result;
+                }
+            }
+            ::std::fs::write(path, contents)
+        }
+
+        pub enum File {
+            Real(::std::fs::File),
+            Sim {
+                data: Vec<u8>,
+                pos: usize,
+                modified: SystemTime,
+            },
+        }
+
+        pub enum Metadata {
+            Real(::std::fs::Metadata),
+            Sim { len: u64, modified: SystemTime },
+        }
+
+        impl File {
+            pub fn open<P: AsRef<Path>>(path: P) -> io::Result<File> {
+                if let Some(fs) = current() {
+                    if let Some(result) = fs.open(path.as_ref()) {
+                        return result.map(|(data, modified)| File::Sim {
+                            data,
+                            pos: 0,
+                            modified,
+                        });
+                    }
+                }
+                ::std::fs::File::open(path).map(File::Real)
+            }
+
+            pub fn metadata(&self) -> io::Result<Metadata> {
+                match self {
+                    File::Real(file) => file.metadata().map(Metadata::Real),
+                    File::Sim { data, modified, .. } => Ok(Metadata::Sim {
+                        len: data.len() as u64,
+                        modified: *modified,
+                    }),
+                }
+            }
+        }
+
+        impl Metadata {
+            #[allow(clippy::len_without_is_empty)]
+            pub fn len(&self) -> u64 {
+                match self {
+                    Metadata::Real(meta) => meta.len(),
+                    Metadata::Sim { len, .. } => *len,
+                }
+            }
+
+            pub fn modified(&self) -> io::Result<SystemTime> {
+                match self {
+                    Metadata::Real(meta) => meta.modified(),
+                    Metadata::Sim { modified, .. } => Ok(*modified),
+                }
+            }
+        }
+
+        impl io::Read for File {
+            fn read(&mut self, buf: &mut [u8]) -> io::Result<usize> {
+                match self {
+                    File::Real(file) => file.read(buf),
+                    File::Sim { data, pos, .. } => {
+                        let n = buf.len().min(data.len() - *pos);
+                        buf[..n].copy_from_slice(&data[*pos..*pos + n]);
+                        *pos += n;
+                        Ok(n)
+                    }
+                }
+            }
+        }
+    }
+}
